@@ -287,4 +287,16 @@ theorem initial_length (fwhm : ℝ) (targets : List (List ℝ × List ℝ)) (h :
 -- non-vacuity: two targets (Z = 2, Z = 1) and a three-point time axis
 example : bounds [2, 1] 0 = [(0, 3), (3, 5)] := by decide
 example : ([0, 1, 3] : List ℝ).Pairwise (· < ·) := by simp [List.pairwise_cons]
+/-- **the record `advanced_simulation` hands to the solver**: the start vector is the assembled initial condition (`initial_spec`),
+the integration runs over `(0, t_max)`, the right-hand side is declared vectorised, the method is Radau unless the caller chooses one -/
+theorem solver_call_spec (fwhm tMax : ℝ) (targets : List (List ℝ × List ℝ)) (method : Option String) :
+    (Adv.call fwhm tMax targets method).y0 = Adv.initial fwhm targets ∧
+    (Adv.call fwhm tMax targets method).t0 = 0 ∧ (Adv.call fwhm tMax targets method).t1 = tMax ∧
+    (Adv.call fwhm tMax targets method).vectorized = true ∧
+    (method = none → (Adv.call fwhm tMax targets method).method = "Radau") ∧
+    (∀ m, method = some m → (Adv.call fwhm tMax targets method).method = m) := by
+  refine ⟨rfl, by simp [Adv.call], rfl, rfl, ?_, ?_⟩
+  · intro h; simp [Adv.call, h]
+  · intro m h; simp [Adv.call, h]
+
 end C18
